@@ -172,6 +172,7 @@ class Effects:
         self.param_callables: Dict[Tuple[str, str], Set[str]] = {}
         self.sites_total = 0
         self.rounds = 0
+        self.restores: Dict[str, Dict[Tuple, bool]] = {}
         self._expanded: Dict[str, Dict[int, List[ast.Call]]] = {}
         self.trace = []
         self.verbose = False
@@ -282,6 +283,8 @@ class FuncAnalysis:
         else:
             env = self.block(node.body, env)
         self.eng._family_env[self.f.qual] = dict(env)
+        if self.restores:
+            self.eng.restores[self.f.qual] = dict(self.restores)
         # classify restored effects
         final = set()
         for e in self.own_effects:
